@@ -84,7 +84,7 @@ def gen_text(rnd, lang, voc, months, bylang):
             parts.append("%d %s %d" % (rnd.randrange(1, 29), rnd.choice(months) if months else "May", rnd.randrange(1990, 2030)))
         else:
             parts.append(rnd.choice(FILL))
-    joiner = rnd.choice([" ", "  ", ", ", ". ", "\n", "", " ", ", "])
+    joiner = rnd.choice([" ", "  ", ", ", ". ", "\n", "", " ", ", ", ",, ", ".. ", " —— ", ",,", "; "])
     text = joiner.join(parts)[:300]
     if rnd.random() < 0.25:
         text = text + rnd.choice([".", "!", "。", " ", "", "?", "…"])
@@ -253,7 +253,10 @@ def run_texts(ctx, desc):
                            # texts whose only hits come out of the (known) misaligned split: the list must still be non-empty
                            ("en", "[ Nov ] today"), ("en", "The report is due [ Nov ] today was the reminder"),
                            ("pt", "Publicado [ nov ] hoje pela editora"), ("en", "December next year ,"),
-                           ("zh", "中午"), ("en", "( ) yesterday"), ("en", ", today")):
+                           ("zh", "中午"), ("en", "( ) yesterday"), ("en", ", today"),
+                           # doubled separators attached to date tokens (the hit must keep them as written)
+                           ("en", "May 5,, 2014,, June 6,, 2015"), ("fr", "le 5 mai,, 2014.. le 6 juin,, 2015"),
+                           ("ru", "5 мая,, 2014,, 6 июня,, 2015"), ("en", "12 May 2015—— 13 May 2015—— 14 May 2015—— 15 May")):
             for adl in (False, True):
                 check_text(ctx, text, [lang], adl, True)
     ctx.count("tripwire:settings-drift-events", len(cons.drift))
